@@ -1,8 +1,16 @@
 import AdaptiveProofs.Lemmas.L1DValues
 import AdaptiveProofs.Lemmas.L1DBounds
 
-/-! Valid histories (the properties' quantifier, `ValidOps`) keep every told point inside the current
-x-bounding box, which for them is the domain: `RunInBox` follows from `ValidOps`. -/
+/-! Valid histories (the properties' quantifier, `ValidOps`: every told / pending point inside the
+domain, no empty batch) keep every told point inside the current x-bounding box, which for them is
+the domain: `RunInBox` follows from `ValidOps`.
+
+`ValidOps` no longer says anything about the end points of the domain.  Before the repair
+`fix: Learner1D.tell_many batch path shrank the x-scale to the range of the points` a batch that did
+not bring the box up to the domain left `bboxX ⊊ [lo, hi]`, a later in-bounds `tell` could fall
+outside the box, and this glue needed the end-point proviso of the old `ValidOp`; now `BInv`
+(`bboxX = (lo, hi)`) is an invariant of every in-bounds history (`binv_step`), so "inside the
+domain" IS "inside the box". -/
 namespace L1D
 variable {α : Type} [Field α] [LinearOrder α] [IsStrictOrderedRing α]
 variable (lossFn : List (Option α) → List (Option (List α)) → Loss α) (r12 : α → α)
@@ -27,6 +35,8 @@ theorem runInBox_of_valid : ∀ (ops : List (Op α)) (s : State α), Inv s → B
     ⟨opInBox_of_valid hb hv.1,
       runInBox_of_valid ops _ (inv_step lossFn r12 hI op) (binv_step lossFn r12 hI hb hv.1) hv.2⟩
 
+/-- `RunInBox` (the hypothesis of `realVals_run`, `exact_values_of_factor_one`) for every valid
+history from `init` — in particular for histories whose batches do not contain the end points. -/
 theorem runInBox_of_valid_init {lo hi : α} (hlt : lo < hi) (factor dxEps : α) (nn : Nat)
     (ops : List (Op α)) (hv : ValidOps lossFn r12 (init lo hi factor dxEps nn) ops) :
     RunInBox lossFn r12 (init lo hi factor dxEps nn) ops :=
